@@ -175,7 +175,8 @@ pub fn main_entry() {
             let data = std::fs::read(args.get(3).cloned().unwrap_or_default()).unwrap_or_default();
             let case = fuzzdec::decode(&data);
             let mut st = Stats::default();
-            let r = checks::fuzz_oracle(&target, &case, &mut st);
+            let only = std::env::var("GV_FUZZ_PROPS").ok();
+            let r = checks::fuzz_oracle(&target, &case, &mut st, only.as_deref());
             println!("decoded case: {}", serde_json::to_string(&case.to_json()).unwrap());
             match r {
                 Ok(()) => println!("fuzz-replay: all oracles of {} hold on this input", target),
@@ -202,7 +203,7 @@ pub fn main_entry() {
                 let case = fuzzdec::decode(&data);
                 let mut st = Stats::default();
                 let t0 = std::time::Instant::now();
-                let r = checks::fuzz_oracle(&target, &case, &mut st);
+                let r = checks::fuzz_oracle(&target, &case, &mut st, None);
                 let dt = t0.elapsed().as_secs_f64();
                 times.push((dt, format!("{} {:?}", case.cfg.tag(), case.tcs), format!("{:?}", r.err().map(|e| (e.0, e.2)))));
             }
